@@ -45,9 +45,11 @@ class State:
         self.env = {}       # local -> ('lin', form) | ('elem', index form) | ('op', ...) | ('line', index)
         self.k = 0
         self.notes = []
+        self.pops = None    # the window elements of the arm being interpreted (variants per position)
 
     def clone(self):
         s = State()
+        s.pops = self.pops
         s.ins, s.lines = self.ins.clone(), self.lines.clone()
         s.env = dict(self.env)
         s.k = self.k
@@ -300,6 +302,31 @@ def exec_expr(e, st, names, fns, depth, want_value=False):
         return [(st, None)]
     if k == "macro" and e["p"] in ("debug_assert", "assert", "debug_assert_eq"):
         return [(st, None)]
+    if k == "match" and want_value:
+        # `match instructions.read() { A => X, B => Y, .. }`: the instruction read is a window element whose variant the
+        # pattern fixed, so one arm is selected
+        outs = []
+        for st2, val in exec_expr(e["on"], st, names, fns, depth, want_value=True):
+            idx = lconst(val[2]) if val is not None and val[0] == "elem" and val[1] == "instructions" else None
+            pops = st2.pops
+            if idx is None or pops is None or idx >= len(pops) or len(pops[idx]["variants"]) != 1:
+                raise Unknown("match on something other than one matched instruction: " + synq.src(e["on"])[:50])
+            v = next(iter(pops[idx]["variants"]))
+            chosen = None
+            for arm in e["arms"]:
+                vs = synq.pat_variants(arm["pat"])
+                if v in vs or vs == {"_"}:
+                    if arm.get("guard") is not None:
+                        raise Unknown("guarded arm in a value match")
+                    chosen = arm
+                    break
+            if chosen is None:
+                raise Unknown("no arm of the value match covers " + v)
+            b = chosen["body"]
+            if b.get("e") == "block" and len(b["stmts"]) == 1 and b["stmts"][0].get("s") == "expr":
+                b = b["stmts"][0]["e"]
+            outs.append((st2, eval_item(b, st2, names)))
+        return outs
     raise Unknown("expr " + (k or "?") + " " + synq.src(e)[:60])
 
 
@@ -425,8 +452,42 @@ def effect_of(T, name, args, binds_env):
     return {k: v for k, v in out.items() if v}
 
 
+CMP_NEG = {"Equal": "NotEqual", "NotEqual": "Equal"}          # `!(a == b)` is `a != b` for every value (NaN included)
+CMP_ORD = {"Less": "GreaterEqual", "LessEqual": "Greater", "Greater": "LessEqual", "GreaterEqual": "Less"}
+VARKINDS = ("Local", "Box", "Capture", "ModSym")
+# consumed -> written rewrites whose equivalence was read against the handlers on the reference tree
+FUSIONS = {
+    (("run:Drop",), ("Drop",)): "a run of one Drop",
+    (("run:Drop",), ("DropN",)): "n Drops = DropN(n) (count decided by P3)",
+    (("GetPropByName", "PropertySlot", "Call"), ("Invoke", "InvokeSlot")): "property lookup + call = invoke (F4.call-proto / F4.cache judge the handler)",
+    (("GetSuper", "Call"), ("SuperInvoke", "InvokeSlot")): "super lookup + call = super invoke",
+    (("ArgumentDelimiter",), ()): "zero-length marker dropped",
+}
+
+
+def meaning_preserved(cons, wr):
+    """(ok, reason) for one rewrite given as consumed/written instruction names ('=X' = the consumed X copied)"""
+    if wr == tuple("=" + c for c in cons):
+        return True, "copy of the consumed prefix"
+    if len(cons) == 1 and cons[0].startswith("run:") and wr and all(w == "=run" for w in wr):
+        return True, "copies inside the run"
+    if (cons, wr) in FUSIONS:
+        return True, FUSIONS[(cons, wr)]
+    for k in VARKINDS:
+        if cons == ("run:Get" + k,) and wr == ("=run", "Dup"):
+            return True, "the same load repeated = the load, then Dup (the run compares whole instructions, operand included: P2/P4)"
+        if cons == ("Set" + k, "Drop", "Get" + k) and wr == ("=Set" + k,):
+            return True, "store; drop; reload of the same slot = store (slot equality decided by P5)"
+    if len(cons) == 2 and cons[1] == "Not" and len(wr) == 1:
+        if CMP_NEG.get(cons[0]) == wr[0]:
+            return True, "negated (in)equality is the opposite (in)equality for every pair of values"
+        if cons[0] in CMP_ORD or cons[0] in CMP_NEG:
+            return False, "`!(a %s b)` is not `a %s b`: with a NaN operand every ordering comparison is false, so the negation is true where the written comparison is false" % (cons[0], wr[0])
+    return False, "the written instructions are neither the consumed ones nor a rewrite whose equivalence is established (rows: %s; negated equality)" % ", ".join("%s->%s" % ("+".join(c), "+".join(w) or "nothing") for c, w in FUSIONS)
+
+
 def run(rec, F, S):
-    R = rec.rule("F11", "for every arm of peephole_optimize and the rewrite it calls: (P1) code and line cursors advance in lock step; (P2) what is consumed is the matched prefix or a run of the matched instruction; (P3) stack effect consumed = stack effect written; (P4) patterns name concrete variants and runs stop at Label; (P5) operands written are the pattern's own bindings; (P6) counters narrower than their loop bound are noted", exhaustive=True)
+    R = rec.rule("F11", "for every arm of peephole_optimize and the rewrite it calls: (P1) code and line cursors advance in lock step; (P2) what is consumed is the matched prefix or a run of the matched instruction; (P3) stack effect consumed = stack effect written; (P4) patterns name concrete variants and runs stop at Label; (P5) operands written are the pattern's own bindings; (P6) counters narrower than their loop bound are noted; (P7) what is written is the consumed prefix, a row of the fusion table, or a negated (in)equality", exhaustive=True)
     fns = fn_items(S)
     po = fns.get("peephole_optimize")
     if po is None:
@@ -488,6 +549,7 @@ def run(rec, F, S):
         if not conc:
             rec.finding(R, "F11.P4/pattern/%s" % re.sub(r"\W+", "_", pname)[:60], "peephole pattern %s contains a wildcard/Label element: a rewrite could consume across a jump target" % pname, loc=loc)
         st = State()
+        st.pops = pops
         for i, p in enumerate(pops):
             for b in p["binds"]:
                 st.env[b] = ("var", b)
@@ -626,6 +688,33 @@ def run(rec, F, S):
                 pass
             except Unknown as u:
                 rec.unan(R, "%s:%s P3" % (pname, tag), str(u))
+            # P7 meaning: what is written is the consumed prefix itself, or one of the rewrites whose equivalence is
+            # established (table below, each row read against the handlers), or a case the small algebra decides
+            if not dead:
+                def _nm(p_):
+                    return "|".join(sorted(p_["variants"])) or "<any>"
+                if loops:
+                    cons_sig = ("run:" + (_nm(pops[0]) if pops else "?"),)
+                else:
+                    cons_sig = tuple(_nm(pops[i]) if i < len(pops) else "?" for i in range(consumed_const or 0))
+                wr_sig = []
+                for cnt, item in fs.ins.written:
+                    if item[0] in ("copy", "elem"):
+                        idx = lconst(item[1] if item[0] == "copy" else item[2])
+                        wr_sig.append("=" + (_nm(pops[idx]) if idx is not None and idx < len(pops) and not loops else "run"))
+                    elif item[0] == "op":
+                        wr_sig.append(item[1])
+                    else:
+                        wr_sig.append("?" + str(item[0]))
+                wr_sig = tuple(wr_sig)
+                copies_ = [lconst(item[1]) for cnt, item in fs.ins.written if item[0] == "copy" and lconst(cnt) == 1]
+                if not loops and len(copies_) == len(fs.ins.written) and copies_ == list(range(consumed_const or 0)):
+                    verdict, why = True, "copy of the consumed prefix"
+                else:
+                    verdict, why = meaning_preserved(cons_sig, wr_sig)
+                rec.inst(R, "P7:%s:%s" % (pname, tag), ok=verdict, loc=loc, note="%s -> %s (%s)" % (list(cons_sig), list(wr_sig), why))
+                if not verdict:
+                    rec.finding(R, "F11.P7/%s/%s" % ("+".join(cons_sig)[:50], "+".join(wr_sig)[:40]), "peephole rewrite %s replaces %s by %s: %s" % (tag, list(cons_sig), list(wr_sig), why), loc=loc)
             # P5 operands are the pattern's bindings; fused ops take slot from the name-carrying op and args from Call
             for cnt, item in fs.ins.written:
                 if item[0] == "op" and item[2]:
